@@ -75,6 +75,10 @@ def gen_spec(seed: int, idx: int, tier: str):
     if prng.random() < 0.12 and mode == "single":
         np_ = len(spec["procs"])
         spec["persist"] = {"cls": prng.choice(sorted(procworld.PERSIST)), "proc": None if prng.random() < 0.4 else prng.randrange(np_), "from": prng.choice([0, 0, 3, 8]) if prng.random() < 0.3 else prng.randrange(0, 70)}
+    elif prng.random() < 0.08 and mode == "single":
+        # statement-granular seam events: SIGINT (if enabled) can arrive between two statements of plan.py
+        spec["points"] = True
+        spec["faults"]["horizon"] *= 4
     return spec, [inp], rng
 
 
